@@ -124,6 +124,7 @@ func fnv64(s string) uint64 {
 
 func (m *VM) step(i int, op *Op) *Rec {
 	rec := &Rec{I: i, K: op.K, Out: op.Out}
+	m.CurRand = nil
 	var body func()
 	skip := func(why string) { rec.Skipped = why }
 	switch op.K {
@@ -148,8 +149,6 @@ func (m *VM) step(i int, op *Op) *Rec {
 		}
 		body = func() {
 			rnd := NewSimRand(op.Ent)
-			opts := []interface{}{}
-			_ = opts
 			var bld biscuit.Builder
 			if op.RootID != nil {
 				bld = biscuit.NewBuilder(k.Priv, biscuit.WithRNG(rnd), biscuit.WithRootKeyID(*op.RootID))
@@ -175,6 +174,7 @@ func (m *VM) step(i int, op *Op) *Rec {
 			if op.Ent != nil { // fresh entropy for a repeated build
 				*b.Rand = *NewSimRand(op.Ent)
 			}
+			m.CurRand = b.Rand
 			tok, err := b.Bld.Build()
 			b.Builds++
 			rec.Err = errStr(err)
@@ -202,19 +202,28 @@ func (m *VM) step(i int, op *Op) *Rec {
 		}
 		body = func() {
 			rnd := NewSimRand(op.Ent)
+			m.CurRand = rnd
 			var tok *biscuit.Biscuit
 			var err error
-			var bo []interface{}
-			_ = bo
-			var bld biscuit.Builder
-			if op.RootID != nil {
-				bld = biscuit.NewBuilder(k.Priv, biscuit.WithRNG(rnd), biscuit.WithRootKeyID(*op.RootID))
+			tmp := &BldObj{}
+			if op.Via == "new" {
+				// biscuit.New(rng, root, baseSymbols, authority)
+				bbo := &BBObj{BB: biscuit.NewBlockBuilder(&datalog.SymbolTable{})}
+				if err = m.addToBB(bbo, op.Blk); err == nil {
+					tmp.Content = bbo.Content
+					tok, err = biscuit.New(rnd, k.Priv, &datalog.SymbolTable{}, bbo.BB.Build())
+				}
 			} else {
-				bld = biscuit.NewBuilder(k.Priv, biscuit.WithRNG(rnd))
-			}
-			tmp := &BldObj{Bld: bld}
-			if err = m.addToBuilder(tmp, op.Blk); err == nil {
-				tok, err = bld.Build()
+				var bld biscuit.Builder
+				if op.RootID != nil {
+					bld = biscuit.NewBuilder(k.Priv, biscuit.WithRNG(rnd), biscuit.WithRootKeyID(*op.RootID))
+				} else {
+					bld = biscuit.NewBuilder(k.Priv, biscuit.WithRNG(rnd))
+				}
+				tmp.Bld = bld
+				if err = m.addToBuilder(tmp, op.Blk); err == nil {
+					tok, err = bld.Build()
+				}
 			}
 			rec.Err = errStr(err)
 			rec.Class = okClass(err)
@@ -225,7 +234,7 @@ func (m *VM) step(i int, op *Op) *Rec {
 			}
 			if tok != nil {
 				abs := &ref.Token{Blocks: []ref.Block{tmp.Content.Clone()}}
-				if op.RootID != nil {
+				if op.RootID != nil && op.Via != "new" {
 					v := *op.RootID
 					abs.RootID = &v
 				}
@@ -348,7 +357,11 @@ func (m *VM) step(i int, op *Op) *Rec {
 			out, ok := m.applyMut(nb.Data, donor, mu)
 			if ok {
 				nb.Data = out
-				nb.Muts = append(nb.Muts, mu.Kind)
+				kind := mu.Kind
+				if kind == "version" {
+					kind = fmt.Sprintf("version:%d", mu.Val)
+				}
+				nb.Muts = append(nb.Muts, kind)
 				m.FaultFired("mut:" + mu.Kind)
 			}
 		}
@@ -622,6 +635,7 @@ func (m *VM) addToBB(b *BBObj, blk *ref.Block) error {
 
 func (m *VM) doAppend(rec *Rec, op *Op, i int, t *TokObj, blk *biscuit.Block, content *ref.Block) {
 	rnd := NewSimRand(op.Ent)
+	m.CurRand = rnd
 	nt, err := t.B.Append(rnd, blk)
 	rec.Err = errStr(err)
 	rec.Class = okClass(err)
